@@ -1472,6 +1472,18 @@ impl<'l> CelCompiler<'l> {
         false
     }
 
+    /// True if `val` is, or (recursively) contains, a failure. Containers keep failed
+    /// elements as values, so such a result may stem from a variable that is merely
+    /// unbound at compile time and must not be frozen into the program.
+    fn holds_error(val: &CelValue) -> bool {
+        match val {
+            CelValue::Err(_) => true,
+            CelValue::List(l) => l.iter().any(Self::holds_error),
+            CelValue::Map(m) => m.values().any(Self::holds_error),
+            _ => false,
+        }
+    }
+
     #[inline]
     fn check_for_const(&self, member_prime_node: CompiledProg) -> CompiledProg {
         let mut i = Interpreter::empty();
@@ -1486,8 +1498,8 @@ impl<'l> CelCompiler<'l> {
         let r = i.run_raw(&bc, true);
 
         match r {
-            Ok(v) => CompiledProg::with_const(v),
-            Err(_) => CompiledProg::with_bytecode(bc),
+            Ok(v) if !Self::holds_error(&v) => CompiledProg::with_const(v),
+            _ => CompiledProg::with_bytecode(bc),
         }
     }
 }
